@@ -23,7 +23,7 @@ def run(ctx):
     rep = vlib.build_harness(lib, "c01_replay", ["c01_replay.cpp"])
     cfg = "MC_ArraySeq_quick" if ctx.quick else "MC_ArraySeq_thorough"
     cases = os.path.join(ctx.tmp, "c01.cases")
-    r = ctx.model("ArraySeq", cfg, emit_to=cases, timeout=ctx.pick(600, 5400), xmx="8g", must_cover=ctx.quick)
+    r = ctx.model("ArraySeq", cfg, emit_to=cases, timeout=ctx.pick(600, 5400), xmx="6g", must_cover=ctx.quick)
     ctx.exhaustive = True
     ctx.rule = ("one case per transition of the ArraySeq state graph (history of public calls + expected projected state); "
                 "non-trivial = history with >= 2 calls; distinct = distinct case lines (hash)")
